@@ -791,8 +791,9 @@ class Decompiler(object):
             limit = decompiler.targets.pop(pos, None)
         top = decompiler.stack.pop()
         while True:
+            at_limit = top is limit
             top = simplify(top)
-            if top is limit:
+            if at_limit or top is limit:
                 break
             if isinstance(top, ast.comprehension):
                 break
